@@ -439,11 +439,21 @@ func run20(r *mon.Run) {
 		if ver == "b1" || g.Chance(1, 3) {
 			args = append(args, "-primaryURL", baseStr+"plain.txt")
 		}
+		// flags within their documented use: an extra response header on every exchange, a manifest URL (b1)
+		override := t%3 == 1
+		if override {
+			args = append(args, "-headerOverride", "X-Verif-Extra: on", "-headerOverride", "Cache-Control:max-age=60")
+		}
+		manifest := ""
+		if ver == "b1" && t%2 == 0 {
+			manifest = baseStr + "manifest.webmanifest"
+			args = append(args, "-manifestURL", manifest)
+		}
 		var names []string
 		for _, f := range files {
 			names = append(names, f.rel)
 		}
-		det := map[string]any{"tree": t, "version": ver, "base_url": baseStr, "files": names}
+		det := map[string]any{"tree": t, "version": ver, "base_url": baseStr, "files": names, "header_override": override, "manifest_url": manifest}
 		key := fmt.Sprintf("dir:%d", t)
 		if t%2 == 1 {
 			preexisting(wbn)
@@ -464,6 +474,20 @@ func run20(r *mon.Run) {
 			}
 			bad, p := auditDirBundle(wbnBytes, base, files)
 			parsed = p
+			if bad == "" && p != nil {
+				if manifest != "" && (p.Manifest == nil || *p.Manifest != manifest) {
+					bad = fmt.Sprintf("-manifestURL %s is not the manifest URL stored in the bundle", manifest)
+				}
+				for _, ex := range p.Exchanges {
+					if override && (ex.Headers["x-verif-extra"] != "on" || ex.Headers["cache-control"] != "max-age=60") {
+						bad = fmt.Sprintf("-headerOverride values are missing on %q (headers %v)", ex.URL, ex.Headers)
+						break
+					}
+					if !override && ex.Headers["x-verif-extra"] != "" {
+						bad = "a header nobody asked for"
+					}
+				}
+			}
 			if bad != "" {
 				if outcome == "dir:ok" {
 					outcome = "dir:CONTENT-WRONG"
